@@ -693,7 +693,8 @@ coap_replace_percents(coap_optlist_t *optlist) {
   size_t o = 0;
 
   for (i = 0; i < optlist->length; i++) {
-    if (optlist->data[i] == '%' && optlist->length - i >= 3) {
+    if (optlist->data[i] == '%' && optlist->length - i >= 3 &&
+        isxdigit(optlist->data[i+1]) && isxdigit(optlist->data[i+2])) {
       optlist->data[o] = (hexchar_to_dec(optlist->data[i+1]) << 4) +
                          hexchar_to_dec(optlist->data[i+2]);
       i+= 2;
